@@ -103,7 +103,7 @@ def task(W, payload):
     if variant == "perm":
         opts.inf_adjust_bias = 0.9; opts.force_infection = True; opts.two_infectious = True     # several infectious compartments with their own infectiousness adjustments, listed in another order
         opts.inexact_split_bias = 0.9 if (payload["index"] // len(VARIANTS)) % 2 == 0 else 0.4
-        if (payload["index"] // len(VARIANTS)) % 2 == 0: opts.force_strat = True; opts.split_bias = 0.95; opts.allow_param_split = False; opts.inexact_split_bias = 1.0    # splits that sum to one only within the API's tolerance: reordering the strata must still only permute the results
+        if (payload["index"] // len(VARIANTS)) % 2 == 0: opts.force_strat = True; opts.split_bias = 0.95; opts.allow_param_split = False; opts.inexact_split_bias = 1.0; opts.age_bias = 0.6    # splits that sum to one only within the API's tolerance: reordering the strata must still only permute the results
     if variant == "perm" and (payload["index"] // len(VARIANTS)) % 2 == 1:
         opts.force_strat = True      # (the shared-object half of the permutation variant needs a stratification to share)
     if variant in ("order", "swap"): opts.allow_post_flows = False
@@ -144,6 +144,12 @@ def task(W, payload):
                 if op.get("mixing"):
                     op["mixing"] = [[op["mixing"][a][b] for b in idx] for a in idx]
                 # stratified compartment lists are order sensitive for mixing (list equality with the original names): keep comps order tied to names
+            if op["op"] == "stratify" and op["kind"] == "age" and len(op["strata"]) >= 2 and not share_mode:
+                # age breakpoints listed in another order (three or more: the youngest first, the others reversed; two: swapped): the age groups are the same
+                srt = sorted(op["strata"], key=int)
+                other = ([srt[0]] + list(reversed(srt[1:]))) if len(srt) >= 3 else list(reversed(srt))
+                op["strata"] = other if op["strata"] == srt else srt
+                bump(out, "perm:age_breakpoints_reordered")
             if op["op"] == "stratify":
                 full = sorted(op["comps"]) == sorted(ops[0]["comps"])
                 if full: op["comps"] = list(names)
